@@ -6,5 +6,7 @@ echo "== clean"
 echo "== seeded"
 for d in seeded/*/; do
   id=$(basename $d); c=${id%%-*}
+  # SEED_FILTER (a bash regular expression on the seed's name, e.g. 'R1[56]$') restricts the run to some seeds
+  if [ -n "$SEED_FILTER" ] && ! [[ "$id" =~ $SEED_FILTER ]]; then continue; fi
   timeout 3000 python3 tools/seed.py run $id $c 2>&1 | tail -1 | cut -c1-260
 done
